@@ -10,6 +10,9 @@ checks = {
  "C04": ("exploration", G, "every (power multiset, percentage 1..100, cap 0..n+1, priority subset) point of the grid is evaluated with closed-form post-conditions; the composition inside ComputeNextValidators is judged in situ on capped consumers of the eligibility search", "§5 C04"),
  "C05": ("model_checking", T, "all interleavings (to the bound) of assignments of 5 keys by 2 validators on a launched and a launching consumer, opt-in with key, validator creation with 3 keys, full unbonding, stop/deletion and time jumps; injectivity of key->validator from the store in every state and a map-based model predicting the forbidden assignments", "§5 C05"),
  "C06": ("model_checking", T, "same search as C05; in every state and at the end of every block each key the model says is current or was replaced less than an unbonding period ago must resolve to its owner (time steps 5 s, U-5 s, U pin the deadline to the block)", "§5 C06"),
+ "C10": ("model_checking", T, "all sequences (to the bound) of create/update/remove/opt-in messages with zero, past, future and equal spawn times, chain-id changes (same / other revision), allow-inactive consumers, and 5 s / unbonding-period block steps; phase edges, INITIALIZED <=> spawn time <=> scheduled exactly once, launch timing and success predicate, recorded genesis and client are judged on every transition; three directed fixtures with 205 / 150+100 / 199+2+3 consumers due at once exercise the 200-per-block limit", "§5 C10"),
+ "C19": ("fault_enumeration", T, "part (i): the halt monitor (no BeginBlock/EndBlock error or panic, validator updates acceptable to CometBFT) over the lifecycle, keys, eligibility and provvalset searches; part (ii) (fault injection at external calls) is being added", "§5 C19"),
+ "C20": ("model_checking", T, "all sequences (to the bound) of full / partial / cancelling parameter updates on a launched and a registered consumer, stop+deletion, downtime handling and block steps 5 s, U-5 s, U; in-force / pending / schedule records are compared with the timeline rules on every transition and the fraction and jail time actually applied are compared with the parameters in force; a directed fixture with 203 changes due at once exercises the 200-per-block limit", "§5 C20"),
  "C15": ("model_checking", T, "every sequence of staking / governance / block events up to the bound on 8 (M, MaxValidators) configurations; after every block the recorded set, the engine-side accumulated set, the returned updates and the staking views are compared with an independent recomputation from the staking store", "§5 C15"),
 }
 ids=[json.loads(l)['id'] for l in open('/verif/properties.jsonl')]
